@@ -154,3 +154,115 @@ def replay_C19(obj):
     inp = obj["input"]
     got = real_snap(inp["price"], inp["tick"], inp["buy"])
     return {"violations": [{"signature": v["signature"], "observed": v["observed"]} for v in mon_C19(inp, got)]}
+
+
+# ---------------------------------------------------------------------------------------------
+# C17 index markets
+# ---------------------------------------------------------------------------------------------
+def run_C17(ctx, model_available=True):
+    import runner_checks as rc
+    rng = ctx.rng("C17")
+    n = 40 * (ctx.scale if ctx.tier == "thorough" else 1)
+    violations, diffs, samples = [], [], []
+    lines, expect = [], []
+    seen, nontriv = set(), set()
+    checks = 0
+    dist = {"runs": 0, "index_values_checked": 0, "unequal_shares_runs": 0, "components": {}}
+    for i in range(n):
+        k = rng.choice([2, 3, 4, 5])
+        cfg = rc.gen_config(rng, opts={"n_markets": k, "index": True, "equal_shares": rng.random() < 0.2,
+                                       "n_normal": rng.choice([3, 6]), "steps": rng.choice([5, 10, 30]),
+                                       "extra_after_index": rng.random() < 0.3})
+        for nm in cfg["simulation"]["markets"]:
+            if nm.startswith("M") and "outstandingShares" in cfg[nm] and rng.random() < 0.7:
+                cfg[nm]["outstandingShares"] = rng.choice([1, 7, 1000, 25000, 123456])
+        for s in cfg["simulation"]["sessions"]:
+            s["withOrderPlacement"] = True
+            s["withOrderExecution"] = rng.random() < 0.85
+            s["maxNormalOrders"] = max(2, s["maxNormalOrders"])
+        seed = rng.randint(0, 2 ** 31)
+        inp = {"kind": "simulation", "config": cfg, "seed": seed}
+        run = rc.run_sim(cfg, seed)
+        if run.sim is None or run.error is not None:
+            violations.append(viol("C17", "C17/run-raised:" + (run.error[0] if run.error else "?"), "index runs complete",
+                                   {"error": run.error and run.error[:3]}, inp))
+            continue
+        h = digest([cfg, seed])
+        seen.add(h)
+        dist["runs"] += 1
+        idx = [m for m in run.sim.markets if isinstance(m, IndexMarket)]
+        for im in idx:
+            comps = im.get_components()
+            shares = [c.outstanding_shares for c in comps]
+            dist["components"][len(comps)] = dist["components"].get(len(comps), 0) + 1
+            if len(set(shares)) > 1:
+                dist["unequal_shares_runs"] += 1
+                nontriv.add(h)
+            if len({id(c) for c in comps}) != len(comps) or any(s is None for s in shares):
+                violations.append(viol("C17", "C17/components-not-distinct-with-shares", "components are distinct markets that declare outstanding shares", {"shares": shares}, inp))
+            T = im.get_time()
+            for t in range(0, T + 1):
+                checks += 1
+                mp = [c.get_market_price(t) for c in comps]
+                fp = [c.get_fundamental_price(t) for c in comps]
+                want_m = sum(Fraction(p) * s for p, s in zip(mp, shares)) / sum(shares)
+                want_f = sum(Fraction(p) * s for p, s in zip(fp, shares)) / sum(shares)
+                got_m = im.get_market_index(t)
+                got_i = im.get_index(t)
+                got_c = im.compute_market_index(t)
+                got_f = im.get_fundamental_price(t)
+                got_fi = im.get_fundamental_index(t)
+                dist["index_values_checked"] += 1
+                for name, got, want in (("index", got_i, want_m), ("market_index", got_m, want_m),
+                                        ("compute_market_index", got_c, want_m),
+                                        ("recorded_fundamental", got_f, want_f), ("fundamental_index", got_fi, want_f)):
+                    if not math.isclose(got, float(want), rel_tol=1e-12):
+                        v = viol("C17", "C17/%s-not-share-weighted-average" % name,
+                                 "index value / recorded fundamental = share-weighted average of the components' market / fundamental prices at that time",
+                                 {"time": t, "got": got, "expected": float(want), "prices": mp if "fund" not in name else fp, "shares": shares}, inp)
+                        if not any(x["signature"] == v["signature"] for x in violations):
+                            violations.append(v)
+                lo, hi = min(mp), max(mp)
+                if not (lo - 1e-9 * abs(lo) <= got_i <= hi + 1e-9 * abs(hi)):
+                    violations.append(viol("C17", "C17/index-outside-component-range", "a weighted average lies between the smallest and largest component price",
+                                           {"time": t, "index": got_i, "prices": mp}, inp))
+                if t % 3 == 0 or t == T:
+                    lines.append("index %d %s" % (len(comps), " ".join("%s %d" % (fbits(p), s) for p, s in zip(mp, shares))))
+                    expect.append((got_i, {"prices": mp, "shares": shares, "time": t, "seed": seed}))
+        if len(samples) < 2 and idx:
+            samples.append({"markets": cfg["simulation"]["markets"], "shares": [c.outstanding_shares for c in idx[0].get_components()], "seed": seed,
+                            "index_last": idx[0].get_index()})
+    compared = 0
+    if model_available and lines:
+        out, err, dt = LeanDriver("Pure").run(lines)
+        if out is None:
+            diffs.append({"channel": "driver", "detail": err[-1500:]})
+        else:
+            for o, (got, inp) in zip(out, expect):
+                compared += 1
+                model = bits2f(o.split()[1])
+                if model != got:
+                    diffs.append({"channel": "index.value", "model": model, "impl": got, "input": inp})
+    return {"evaluations": len(seen), "distinct_nontrivial": len(nontriv),
+            "rule": "random runs with an index market over 2-5 component markets with random (mostly unequal) outstanding shares, optional extra market after the index; every time step of every run is checked against exact rational weighted averages; non-trivial = run with unequal shares",
+            "samples": samples, "violations": violations, "diffs": diffs[:30],
+            "comparisons": {"index_values_compared_bitwise": compared}, "traces_validated": compared,
+            "distribution": dist, "monitor_checks": checks}
+
+
+def replay_C17(obj):
+    import runner_checks as rc
+    inp = obj["input"]
+    run = rc.run_sim(inp["config"], inp["seed"])
+    out = []
+    for im in [m for m in run.sim.markets if isinstance(m, IndexMarket)]:
+        comps = im.get_components()
+        shares = [c.outstanding_shares for c in comps]
+        for t in range(im.get_time() + 1):
+            want = sum(Fraction(c.get_market_price(t)) * s for c, s in zip(comps, shares)) / sum(shares)
+            wantf = sum(Fraction(c.get_fundamental_price(t)) * s for c, s in zip(comps, shares)) / sum(shares)
+            if not math.isclose(im.get_index(t), float(want), rel_tol=1e-12):
+                out.append({"signature": "C17/index-not-share-weighted-average", "observed": {"time": t}})
+            if not math.isclose(im.get_fundamental_price(t), float(wantf), rel_tol=1e-12):
+                out.append({"signature": "C17/recorded_fundamental-not-share-weighted-average", "observed": {"time": t}})
+    return {"violations": out[:5]}
